@@ -245,13 +245,16 @@ def run_c20(tier, seed):
     chunks, per_chunk = (1, 150) if tier == "quick" else (6, 330)
     ident = [dict(kind="c20a", case=f"identifiers seed={seed * 1000 + i} n={per_chunk}", seed=seed * 1000 + i, n=per_chunk, timeout=35 if tier == "quick" else 150) for i in range(chunks)]
     repair = _c20_specs(tier, seed)
-    failures, sigs, extra = _run_cases("c20b", ident + repair, timeout=60, label="C20")
+    consumers = [dict(kind="c20c", case=f"consumer of the output of a deprecated task/{pos}/cleanup={cl}", position=pos, cleanup=cl)
+                 for pos in ("direct", "list") for cl in (False, True)]
+    failures, sigs, extra = _run_cases("c20b", ident + repair + consumers, timeout=60, label="C20")
     graphs = sum(e["cases"] for e in extra if e and "cases" in e)
     return dict(
         tool="cpython: real identifiers of graphs with @deprecate classes; real fix_deprecated on workspaces populated by real runs, then resubmission",
         bound=f"{graphs} graphs (deprecated instance as root/param/nested/list/dict, task) + {len(repair)} repair cases: 4 variants x 6 states x 3 modes x resubmit dry/real"
-              f" + {len(C20_META_VARIANTS)} variants with a configuration forced in by setmeta(cfg, False) at a Meta position (deprecated itself / bystander / nested one level down)",
-        cases=graphs + len(repair),
+              f" + {len(C20_META_VARIANTS)} variants with a configuration forced in by setmeta(cfg, False) at a Meta position (deprecated itself / bystander / nested one level down)"
+              f" + {len(consumers)} consumers of the output of a deprecated task (direct / in a list, link / cleanup)",
+        cases=graphs + len(repair) + len(consumers),
         distinct=len(sigs),
         failures=_dedup(failures),
     )
@@ -885,6 +888,76 @@ def _worker_c20b(spec):
     _emit(failures, [[variant, state, fix, cleanup, spec["resubmit"], spec["second"], spec["bystanders"]]])
 
 
+# ------------------------------------------------------------------------------------------- worker: C20 (c) consumers
+
+
+def _worker_c20c(spec):
+    """A job that holds the *output* of a task whose class becomes deprecated (the deprecated class only occurs behind the
+    task link of a parameter value): its identifier changes, so the repair has to make its directory reachable too."""
+    from experimaestro import experiment
+    from experimaestro.scheduler import JobState
+    from experimaestro.scheduler.workspace import RunMode
+    from experimaestro.tools.jobs import fix_deprecated
+    from bounded import zoo_ws as z
+
+    _quiet()
+    failures = []
+    case = spec["case"]
+    cleanup, position = spec["cleanup"], spec["position"]
+
+    def fail(name, **kw):
+        failures.append(dict(name=name, case=case, **kw))
+
+    def consumer(out):
+        return z.RepConsumer(src=out) if position == "direct" else z.RepConsumer(src=z.RepOut(k=5), hs=[z.RepOut(k=6), out])
+
+    tmp = spec["tmp"]
+    ws = Path(tmp) / "ws"
+    ws.mkdir()
+    jobs = ws / "jobs"
+    payload = b"payload of the consumer\n" * 3
+    with experiment(ws, "populate", port=-1) as xp:
+        xp.setenv("PYTHONPATH", _pythonpath())
+        out = z.RepOldProd(x=1).submit()
+        cons = consumer(out)
+        cons.submit()
+    job = cons.__xpm__.job
+    old_rel = str(job.relpath)
+    if job.state != JobState.DONE or not job.donepath.is_file():
+        fail("C20 setup: the consumer did not run")
+    (job.path / "result.bin").write_bytes(payload)
+
+    z.rep_deprecate_all()
+    with experiment(Path(tmp) / "dry", "dry", port=-1, run_mode=RunMode.DRY_RUN):
+        t = consumer(z.RepNewProd(x=1).submit())
+        t.submit()
+        new_rel = str(t.__xpm__.job.relpath)
+    if new_rel == old_rel:
+        fail("C20 setup: deprecating the producer should change the identifier of the consumer", old=old_rel)
+
+    before = _snap(jobs)
+    status, value = _call(lambda: fix_deprecated(ws, True, cleanup), 30)
+    if status != "ok":
+        fail("C20 fix_deprecated raised or hung", status=status, error=value)
+    after = _snap(jobs)
+    lost = _contents(before, cleanup) - _contents(after, cleanup)
+    if lost:
+        fail("C20 job data files were deleted by the repair", lost=sum(lost.values()))
+    n = jobs / new_rel
+    if not ((n / "result.bin").is_file() and (n / "result.bin").read_bytes() == payload and (n / "params.json").is_file()):
+        fail("C20 job data is not reachable under the new identifier", job="consumer of the output of a deprecated task", new=new_rel, position=position)
+    else:
+        with experiment(ws, "again", port=-1, run_mode=RunMode.DRY_RUN):
+            t = consumer(z.RepNewProd(x=1).submit())
+            t.submit()
+            j = t.__xpm__.job
+            if not (j.path.exists() and (j.path / "result.bin").is_file()):
+                fail("C20 resubmitted replacement does not find the job directory", path=str(j.relpath))
+            elif not j.donepath.is_file():
+                fail("C20 repaired job is not seen as done by the replacement task", looked_for=j.donepath.name)
+    _emit(failures, [["consumer", position, cleanup]])
+
+
 # ------------------------------------------------------------------------------------------------------------ worker: C04
 
 
@@ -1040,6 +1113,6 @@ if __name__ == "__main__":
         _probe_lock_main(sys.argv[2], sys.argv[3])
     else:
         _spec = json.loads(sys.stdin.read())
-        {"c16": _worker_c16, "c20a": _worker_c20a, "c20b": _worker_c20b, "c04": _worker_c04}[kind](_spec)
+        {"c16": _worker_c16, "c20a": _worker_c20a, "c20b": _worker_c20b, "c20c": _worker_c20c, "c04": _worker_c04}[kind](_spec)
         sys.stdout.flush()
         os._exit(0)
